@@ -12,6 +12,7 @@ package multiplex
 //   R:<conn>:<hex>                                        raw bytes as one record ("-" = empty record)
 //   T:<conn>:<keep>:<sid>:<seq>:<payload hex>             a valid frame cut to its first <keep> bytes
 //   F:<conn>:<bit>:<sid>:<seq>:<payload hex>              a valid frame with one bit flipped
+//   H:<conn>:<bit 0..15>:<sid>:<seq>:<payload hex>        a valid frame with one bit of header bytes 12-13 flipped (still authenticates)
 //   K:<conn>:<sid>:<seq>:<payload hex>                    a valid frame sealed under another key
 //   Q                                                     settle and observe
 // output: <id> q:<closed>:<closeCalls>:<sent>:<sid>=<data|-><.|!>,... per Q
@@ -187,6 +188,14 @@ func c11LoopRun(fs []string) string {
 			}
 			f[bit/8] ^= 1 << (bit % 8)
 			conns[ci].feed(c11LoopRecord(f))
+		case "H":
+			// one bit of the two header bytes that lie outside the AEAD (closing flag, extra length): the frame still
+			// authenticates (known finding F3) and is acted upon - whatever it then means, it must not crash the process
+			bit, _ := strconv.Atoi(p[2])
+			f := frame(&peer, p[3], p[4], "0", p[5])
+			bit %= 16
+			f[12+bit/8] ^= 1 << (bit % 8)
+			conns[ci].feed(c11LoopRecord(f))
 		case "K":
 			conns[ci].feed(c11LoopRecord(frame(&foreign, p[2], p[3], "0", p[4])))
 		case "Q":
@@ -281,5 +290,6 @@ func TestVerifC11Loop(t *testing.T) {
 			return c11LoopRun(fs)
 		}()
 		w.WriteString(res + "\n")
+		w.Flush() // one line per finished case: if the process dies inside a case, the case is the first one without a line
 	}
 }
